@@ -33,12 +33,12 @@ func (c *Cluster) OpenOpts(o *orbitdb.CreateDBOptions) *orbitdb.CreateDBOptions 
 
 // ClusterOpts configures NewCluster.
 type ClusterOpts struct {
-	N       int
-	Slots   []int  // key slot per peer (nil: 0..N-1)
-	Type    string // eventlog | keyvalue | docstore
-	Name    string
-	Writers []int // peer indices with write access (nil: all); -1 means "*"
-	OpenOn  []int // peers that open the db (nil: all)
+	N         int
+	Slots     []int  // key slot per peer (nil: 0..N-1)
+	Type      string // eventlog | keyvalue | docstore
+	Name      string
+	Writers   []int // peer indices with write access (nil: all); -1 means "*"
+	OpenOn    []int // peers that open the db (nil: all)
 	Replicate *bool
 	DefaultAC bool // create without access-controller options (creator only)
 	// ACType "simple": the bundled in-memory controller — the list is not recorded in the manifest, every
@@ -152,12 +152,17 @@ func (c *Cluster) Reopen(ctx context.Context, i int) error { return c.ReopenLimi
 
 // ReopenLimit is Reopen with Load(amount).
 func (c *Cluster) ReopenLimit(ctx context.Context, i int, amount int) error {
+	return c.ReopenWith(ctx, i, amount, &orbitdb.CreateDBOptions{})
+}
+
+// ReopenWith restarts peer i's instance and reopens the database with the given options, then Load(amount).
+func (c *Cluster) ReopenWith(ctx context.Context, i int, amount int, opts *orbitdb.CreateDBOptions) error {
 	p := c.W.Peers[i]
 	p.StopInstance()
 	if _, err := p.StartInstance(ctx); err != nil {
 		return err
 	}
-	s, err := p.DB.Open(ctx, c.Addr, c.OpenOpts(&orbitdb.CreateDBOptions{}))
+	s, err := p.DB.Open(ctx, c.Addr, c.OpenOpts(opts))
 	if err != nil {
 		return err
 	}
